@@ -10,6 +10,27 @@ import (
 	"github.com/dgrr/http2"
 )
 
+// PoisonMark is written into frames when they go back to their pool (see
+// poison): whoever still reads a released frame sees it.
+const PoisonMark = "\x7fRELEASED-TO-POOL\x7f"
+
+// poison overwrites the payload fields of a frame that is being released.
+// Every acquisition resets the frame first, so a correct user never sees this.
+func poison(obj interface{}) {
+	switch x := obj.(type) {
+	case *http2.GoAway:
+		x.SetStream(0x7ffffff1)
+		x.SetCode(http2.ErrorCode(0x70150))
+		x.SetData([]byte(PoisonMark))
+	case *http2.RstStream:
+		x.SetCode(http2.ErrorCode(0x70150))
+	case *http2.Data:
+		x.SetData([]byte(PoisonMark))
+	case *http2.WindowUpdate:
+		x.SetIncrement(0x70150)
+	}
+}
+
 var KindNames = []string{"frame", "frameHeader", "headerField", "stream", "requestCtx", "clientCtx", "hpack"}
 
 type state struct {
@@ -107,6 +128,9 @@ func (t *Tracker) observe(kind int, get bool, obj interface{}) {
 		return
 	}
 	t.Puts[kind]++
+	if kind == http2.VerifPoolFrame {
+		poison(obj)
+	}
 	if st == nil {
 		// first seen at Put: built with a literal by the caller
 		t.objs[obj] = &state{owned: false, lastPut: where}
